@@ -4,9 +4,10 @@
   numbers) and every temporal extent / matrix dimension.
 -/
 import PV.Model.Corr
+import PV.Proofs.CorrLemmas
 
 namespace PV
-open Corr
+open Corr Scalar
 
 variable {β : Type}
 
@@ -25,5 +26,177 @@ theorem c14_reverse (a : Corr β) (t : Nat) (ht : t < a.T) :
     a.reverse.content.getD t none = a.content.getD (a.T - 1 - t) none := by
   have h1 : t < a.content.length := by simpa [Corr.T] using ht
   simp [Corr.reverse, Corr.T, List.getD_eq_getElem?_getD, List.getElem?_reverse h1]
+
+/-- C14 (Corr + Corr): same temporal extent and matrix dimension; slice t is undefined iff an
+    operand is undefined there, else the element-wise sum of the operands' slices -/
+theorem c14_add_pointwise [Add β] (a b c : Corr β) (h : Corr.add a b = .ok c) :
+    c.T = a.T ∧ c.N = a.N ∧
+    ∀ t, t < a.T → c.content.getD t none = zipSpec (· + ·) (a.content.getD t none) (b.content.getD t none) := by
+  unfold Corr.add at h
+  split at h
+  · cases h
+  · rename_i hc
+    simp at hc
+    cases h
+    refine ⟨zipCorr_length _ a b hc.2, rfl, fun t ht => zipCorr_getD _ a b hc.2 t ht⟩
+
+
+/-- C14 (Corr * Corr) -/
+theorem c14_mul_pointwise [Mul β] (a b c : Corr β) (h : Corr.mul a b = .ok c) :
+    c.T = a.T ∧ c.N = max a.N b.N ∧
+    ∀ t, t < a.T → c.content.getD t none = zipSpec (· * ·) (a.content.getD t none) (b.content.getD t none) := by
+  unfold Corr.mul at h
+  split at h
+  · cases h
+  · rename_i hc
+    simp at hc
+    cases h
+    refine ⟨zipCorr_length _ a b hc.2, rfl, fun t ht => zipCorr_getD _ a b hc.2 t ht⟩
+
+
+/-- C14 (Corr / Corr): as above, and additionally undefined where the quotient is not a number -/
+theorem c14_div_pointwise [Scalar β] (a b c : Corr β) (h : Corr.div a b = .ok c) :
+    c.T = a.T ∧
+    ∀ t, t < a.T → c.content.getD t none =
+      nanToNone (zipSpec (· / ·) (a.content.getD t none) (b.content.getD t none)) := by
+  unfold Corr.div at h
+  split at h
+  · cases h
+  · rename_i hc
+    simp only [] at h
+    split at h
+    · cases h
+    · simp at hc
+      cases h
+      refine ⟨by simpa [Corr.T] using zipCorr_length _ a b hc.2, fun t ht => ?_⟩
+      have hl := zipCorr_length (· / ·) a b hc.2
+      have := zipCorr_getD (· / ·) a b hc.2 t ht
+      rw [← this]
+      simp only [List.getD_eq_getElem?_getD, List.getElem?_map]
+      have h3 : t < (zipCorr (· / ·) a b).length := by omega
+      simp [List.getElem?_eq_getElem h3]
+
+
+/-- C14 (functions): an elementary function acts on every entry of every defined slice; a slice
+    whose result is not a number becomes undefined; the call fails only if nothing is defined -/
+theorem c14_applyFunc [Scalar β] (f : β → β) (a c : Corr β) (h : Corr.applyFunc f a = .ok c) :
+    c.T = a.T ∧ c.N = a.N ∧
+    ∀ t, c.content.getD t none = nanToNone ((a.content.getD t none).map (·.map (·.map f))) := by
+  unfold Corr.applyFunc at h
+  simp only [] at h
+  split at h
+  · cases h
+  · cases h
+    exact ⟨by simp [Corr.T], rfl, fun t => applyFunc_getD f a t⟩
+
+
+theorem c14_applyFunc_fails_iff [Scalar β] (f : β → β) (a : Corr β) :
+    (∃ e, Corr.applyFunc f a = .error e) ↔
+      ∀ t, t < a.T → nanToNone ((a.content.getD t none).map (·.map (·.map f))) = none := by
+  unfold Corr.applyFunc
+  simp only []
+  constructor
+  · rintro ⟨e, h⟩ t ht
+    split at h
+    · rename_i hall
+      rw [← applyFunc_getD]
+      rw [List.all_eq_true] at hall
+      have hl : t < ((a.content.map (·.map (·.map (·.map f)))).map nanToNone).length := by
+        simpa [Corr.T] using ht
+      have := hall _ (List.getElem_mem hl)
+      rw [List.getD_eq_getElem?_getD, List.getElem?_eq_getElem hl]
+      simpa using this
+    · cases h
+  · intro hall
+    refine ⟨.allNone, ?_⟩
+    rw [if_pos]
+    rw [List.all_eq_true]
+    intro x hx
+    obtain ⟨t, ht, rfl⟩ := List.getElem_of_mem hx
+    have h1 := hall t (by simpa [Corr.T] using ht)
+    rw [← applyFunc_getD, List.getD_eq_getElem?_getD, List.getElem?_eq_getElem ht] at h1
+    simp at h1
+    simp [h1]
+
+
+/-- C14 (roll): slice t of the rolled correlator is slice (t - dt) mod T, for EVERY integer shift
+    (also |dt| > T) -/
+theorem c14_roll (a : Corr β) (dt : Int) (t : Nat) (ht : t < a.T) :
+    (a.roll dt).T = a.T ∧
+    (a.roll dt).content.getD t none = a.content.getD (Int.toNat (Int.emod ((t : Int) - dt) (a.T : Int))) none := by
+  have hne : a.content.length ≠ 0 := by simp [Corr.T] at ht; omega
+  obtain ⟨hs, hidx⟩ := roll_index a.T t dt ht
+  rw [hidx]
+  simp only [Corr.roll, Py.roll, Corr.T, if_neg hne] at *
+  exact rot_getD a.content _ t hs ht
+
+
+/-- C14 (thin): keeps exactly the slices with (offset + t) ≡ 0 mod spacing -/
+theorem c14_thin (a : Corr β) (spacing : Nat) (offset : Int) (t : Nat) (ht : t < a.T) :
+    (a.thin spacing offset).T = a.T ∧
+    (a.thin spacing offset).content.getD t none =
+      (if Py.fmod (offset + t) spacing != 0 then none else a.content.getD t none) := by
+  have h1 : t < a.content.length := by simpa [Corr.T] using ht
+  constructor
+  · simp [Corr.thin, Corr.T]
+  · simp [Corr.thin, Corr.T, List.getD_eq_getElem?_getD, h1]
+
+
+/-- C14 (symmetric / anti_symmetric): slice 0 is kept; slice t ≥ 1 is ½(C(t) ± C(T-t)), undefined
+    when either is undefined -/
+theorem c14_symmetrize [Scalar β] (sign half : β) (a c : Corr β) (h : Corr.symmetrize sign half a = .ok c) :
+    c.T = a.T ∧ c.prange = a.prange ∧ c.content.getD 0 none = a.content.getD 0 none ∧
+    ∀ t, 1 ≤ t → t < a.T → c.cell? t =
+      (match a.cell? t, a.cell? (a.T - t) with
+       | some x, some y => some (half * (x + sign * y))
+       | _, _ => none) := by
+  unfold Corr.symmetrize at h
+  split at h
+  · cases h
+  split at h
+  · cases h
+  simp only [] at h
+  split at h
+  · cases h
+  rename_i hall
+  cases h
+  refine ⟨by simp [Corr.T], rfl, ?_, ?_⟩
+  · by_cases h0 : a.T = 0
+    · exfalso; apply hall; simp [h0]
+    · simp [List.getD_eq_getElem?_getD, List.getElem?_map, List.getElem?_range (Nat.pos_of_ne_zero h0)]
+  · intro t h1 ht
+    have ht0 : (t == 0) = false := by simp; omega
+    have hc : ∀ (l : List (Option (Mat β))), Corr.cell? ({ content := l, N := 1, prange := a.prange } : Corr β) t
+        = match l.getD t none with | some [[x]] => some x | _ => none := fun l => rfl
+    rw [hc]
+    simp only [List.getD_eq_getElem?_getD, List.getElem?_map, List.getElem?_range ht,
+      Option.map_some, Option.getD_some, ht0]
+    cases a.cell? t <;> cases a.cell? (a.T - t) <;> simp
+
+
+/-- C14 (Hankel, periodic): entry (i, j) of slice t is C((t + i + j) mod T) -/
+theorem c14_hankel_periodic (a c : Corr β) (n : Nat) (h : a.hankel n true = .ok c) (t : Nat) (ht : t < a.T) :
+    c.T = a.T ∧ c.N = n ∧
+    c.content.getD t none =
+      (List.range n).mapM (fun i => (List.range n).mapM (fun j => a.cell? ((t + i + j) % a.T))) := by
+  unfold Corr.hankel at h
+  split at h
+  · cases h
+  cases h
+  refine ⟨by simp [Corr.T], rfl, ?_⟩
+  simp [List.getD_eq_getElem?_getD, List.getElem?_map, List.getElem?_range ht]
+
+
+/-- C14 (Hankel, not periodic): slices whose window leaves the lattice are undefined -/
+theorem c14_hankel_open (a c : Corr β) (n : Nat) (hn : 0 < n) (h : a.hankel n false = .ok c) (t : Nat) (ht : t < a.T) :
+    c.content.getD t none =
+      (if t + 2 * (n - 1) ≥ a.T then none
+       else (List.range n).mapM (fun i => (List.range n).mapM (fun j => a.cell? (t + i + j)))) := by
+  unfold Corr.hankel at h
+  split at h
+  · cases h
+  cases h
+  simp [List.getD_eq_getElem?_getD, List.getElem?_map, List.getElem?_range ht, hn]
+
 
 end PV
